@@ -775,6 +775,26 @@ func (e *Eng) assignedIn(n ast.Node) *assignedSet {
 					a.elemTags["ML"] = true
 					return
 				}
+				// x.f[i] = v, p.q.r[i] = v: some array of that element type is written
+				var et types.Type
+				switch u := t.Underlying().(type) {
+				case *types.Slice:
+					et = u.Elem()
+				case *types.Array:
+					et = u.Elem()
+				case *types.Pointer:
+					if ar, ok := u.Elem().Underlying().(*types.Array); ok {
+						et = ar.Elem()
+					}
+				}
+				if et != nil {
+					if _, isStruct := et.Underlying().(*types.Struct); !isStruct {
+						for _, cmp := range e.comps(et) {
+							a.elemTags[e.elemBase(et)+cmp] = true
+						}
+						return
+					}
+				}
 			}
 			a.all = true
 		case *ast.SelectorExpr:
